@@ -53,6 +53,8 @@ def main(ctx):
                          "hi": min(n, lo + step)})
     for rot in range(4 if ctx.tier == "quick" else 12):
         jobs.append({"kind": "mix", "rot": rot, "tier": ctx.tier})
+    for cfg in CONFIGS:
+        jobs.append({"kind": "after-malformed", "cfg": cfg, "tier": ctx.tier})
     # largest shards first
     jobs.sort(key=lambda j: -(j.get("hi", 0) - j.get("lo", 0)))
     ctx.pmap(ENV, "props.c03:job", jobs, chunksize=1)
@@ -76,6 +78,8 @@ def main(ctx):
     ctx.require("int_2_53_in_payload")
     ctx.require("wrong_flag_rejected")
     ctx.require("cache_fresh_compared")
+    ctx.require("after_malformed_cases")
+    ctx.require("malformed_refused")
 
 
 # ---------------------------------------------------------------------------
@@ -489,6 +493,33 @@ def job(a):
             label, w = msgs[min(3, len(msgs) - 1)]
             samples.append({"class": cls, "label": label, "wire": G._short(w),
                             "configs": CONFIGS})
+    elif a["kind"] == "after-malformed":
+        # state carried over between calls: after EVERY malformed octet string of a small
+        # enumerated menu (each proper prefix of a serialized message, trailing octets, a lone
+        # reserved octet, nothing) has been handed to a serializer - and refused or not, that is
+        # C08's business - valid messages still round trip through the same serializer objects
+        cfg = a["cfg"]
+        pool = []
+        for cls in ("CALL", "EVENT", "WELCOME"):
+            pool.append((cls,) + tuple(G.base_forms(cls)[0]))
+        ser = run.sers[cfg]
+        label0, w0 = G.base_forms("PUBLISH")[0]
+        data, _ = ser.serialize(_klass("PUBLISH").parse(_copy(w0)))
+        menu = [data[:i] for i in range(0, len(data))]
+        menu += [data + b"\x00", data + data[:3], b"\xc1", b"\xff" * 4, data[1:]]
+        if a["tier"] != "thorough":
+            menu = menu[:12] + menu[12:-5:5] + menu[-5:]
+        for bad_octets in menu:
+            try:
+                ser.unserialize(bad_octets)
+            except Exception:
+                run.count("malformed_refused")
+            else:
+                run.count("malformed_not_refused")
+            run.count("after_malformed_cases")
+            for cls, label, w in pool:
+                run.one(cls, "after-malformed:" + label, w, [cfg])
+        samples.append({"kind": "after-malformed", "cfg": cfg, "malformed_inputs": len(menu)})
     else:
         # one message of every class, all cyclic windows of every batch size
         rot = a["rot"]
@@ -538,7 +569,10 @@ MANIFEST = {
             "library's __eq__); batches of 1/2/3/5 messages (same class and mixed classes) must "
             "come back as the same N in order; is_binary must match the produced octets; the "
             "per-object serialization cache is compared with a fresh object serialized in the "
-            "opposite serializer order.",
+            "opposite serializer order. State carried over between calls: after each malformed "
+            "octet string of an enumerated menu (every proper prefix of a serialized message, "
+            "trailing octets, reserved octets) was handed to a serializer, valid messages still "
+            "round trip through the same serializer objects.",
     "note": "Trusted: ref/wamp_grammar.py (valid shapes, equivalence rules listed in "
             "ASSUMPTIONS), the third-party codecs cbor2/msgpack/bjdata/json. Not exhaustive in "
             "values: one boundary value per field inside multi-field subsets. FlatBuffers not "
